@@ -296,6 +296,10 @@ func runCallbacks(c *core.Ctx, pool *gjs.Pool, dir string) ([]func(), func()) {
 		jobs = append(jobs, func() {
 			progs[i] = callbackProgram(cases[i].ctx, cases[i].body)
 			obs[i] = pool.RunBoth(c.Scratch, progs[i], gjs.Opts{}, 30*time.Second, false, false)
+			if obs[i].BuildErr == nil && obs[i].JS.End == "timeout" {
+				// a loaded machine: these programs run for milliseconds; once more with a long limit
+				obs[i] = pool.RunBoth(c.Scratch, progs[i], gjs.Opts{}, 3*time.Minute, false, false)
+			}
 		})
 	}
 	return jobs, func() {
@@ -303,6 +307,10 @@ func runCallbacks(c *core.Ctx, pool *gjs.Pool, dir string) ([]func(), func()) {
 			b := obs[i]
 			if b.BuildErr != nil {
 				c.Infra(fmt.Errorf("gopherjs build of a callback program failed: %v", b.BuildErr))
+				return
+			}
+			if b.JS.End == "timeout" && cc.outcome != "unspec" {
+				c.Infra(fmt.Errorf("callback program %s/%s timed out twice (30 s, 3 min): %s", cc.ctx, cc.body, strings.Join(b.JS.Lines, " | ")))
 				return
 			}
 			if cc.outcome == "unspec" {
